@@ -5,7 +5,7 @@ import os
 from harness import common, gen_tree, trees, treeimpl
 from harness.common import cps, uncps
 
-BRIDGE = ('Gemato.Bridge.Tree', 'Gemato.Bridge.SrcVerify', 'Gemato.Bridge.SrcLoader', 'Gemato.Bridge.SrcWalk')
+BRIDGE = ('Gemato.Bridge.Tree', 'Gemato.Bridge.SrcVerify', 'Gemato.Bridge.SrcLoader', 'Gemato.Bridge.SrcWalk', 'Gemato.Bridge.SrcText', 'Gemato.Bridge.SrcCodec')
 PROPS = ['Gemato.Props.C01', 'Gemato.Props.C01b']
 
 
